@@ -989,7 +989,16 @@ func c20UUIDGen(pairs bool) func(x *mc.X) string {
 			b = b[:p] + b[p+1:]
 		case 4:
 			if !pairs {
-				return b + b
+				// quick tier: the same one-byte substitution at any two positions (defects that cancel out in a count or a checksum)
+				p := x.Choose(36, "pos")
+				q := x.Choose(36, "pos2")
+				m := x.Choose(len(muts), "mut")
+				if len(muts[m]) != 1 {
+					return b + b
+				}
+				bb := []byte(b)
+				bb[p], bb[q] = muts[m][0], muts[m][0]
+				return string(bb)
 			}
 			p := x.Choose(36, "pos")
 			q := x.Choose(36, "pos2")
